@@ -128,6 +128,8 @@ type FG struct {
 	defers  []*ssa.Defer
 	deferBlk []int
 	usedAssumed map[string]bool
+	softErrs    []string
+	beforeHit   map[string]bool // keys of 'before K assert' clauses that attached to at least one call/send
 	curBlock int
 	curInstr ssa.Instruction
 	strLits map[string]string
@@ -150,7 +152,7 @@ type FG struct {
 func newFG(g *Gen, fn *ssa.Function, c *Contract) *FG {
 	fg := &FG{g: g, fn: fn, c: c, sorts: newSorts(), declSet: map[string]bool{}, vals: map[ssa.Value]Val{},
 		R: map[int]string{}, edge: map[[2]int][]string{}, endSt: map[int]*State{}, headSt: map[int]*State{}, heapSort: map[string]string{}, heapTy: map[string]types.Type{},
-		params: map[string]Val{}, loopOrd: map[int]int{}, loopBlocks: map[int]map[int]bool{}, usedAssumed: map[string]bool{},
+		params: map[string]Val{}, loopOrd: map[int]int{}, loopBlocks: map[int]map[int]bool{}, usedAssumed: map[string]bool{}, beforeHit: map[string]bool{},
 		strLits: map[string]string{}, applyDecl: map[string]bool{}, closures: map[ssa.Value]*closureInfo{}, pureAxiomDone: map[string]bool{}}
 	if fn != nil {
 		fg.name = g.keyOf(fn)
